@@ -133,6 +133,11 @@ impl TcpStream {
     pub fn config(&self) -> &Config {
         &self.config
     }
+
+    /// Abandons the current connection; the next sequence reconnects.
+    pub(crate) fn reset(&mut self) {
+        self.inner = None;
+    }
 }
 
 /// One of our most important.
